@@ -1,6 +1,7 @@
 import SpdxVerif.Props.C02
 import SpdxVerif.Props.Consts
 import SpdxVerif.Props.C02Spec
+import SpdxVerif.Props.C03Match
 #print axioms Spdx.C02.matchLeaf_symm
 #print axioms Spdx.C02.matchLeaf_refl
 #print axioms Spdx.C02.lic_never_matches_ref
@@ -17,3 +18,4 @@ import SpdxVerif.Props.C02Spec
 #print axioms Spdx.C02.matchLeaf_eq_spec_parsed
 #print axioms Spdx.render_fold_inj
 #print axioms Spdx.parse_leavesOK
+#print axioms Spdx.C03.g_match_refines
